@@ -12,13 +12,13 @@ package netpoll
 
 import (
 	"bufio"
-	"runtime"
-	"runtime/pprof"
 	"context"
 	"flag"
 	"fmt"
 	"math/rand"
 	"os"
+	"runtime"
+	"runtime/pprof"
 	"sort"
 	"strings"
 	"sync/atomic"
@@ -104,8 +104,8 @@ type vocWorld struct {
 	ran     []int // connection ids whose Inputs callback ran during the last dispatch
 	nextID  int
 	slots   map[int32]bool
-	held    []*FDOperator // operators taken by "drain" and never used
-	mid     func()        // "dclose": runs once inside the next Inputs callback, i.e. while the poller holds that slot's token
+	held    []*FDOperator  // operators taken by "drain" and never used
+	mid     func()         // "dclose": runs once inside the next Inputs callback, i.e. while the poller holds that slot's token
 	sents   []*vocSentinel // hang-up goroutines that have not finished (an entry is blocked at a gate)
 	// real-Wait mode ("waitstart" … "waitstop"): defaultPoll.Wait runs on its own goroutine and IS the poller; it reports to the
 	// harness after every return of epoll_wait (schedule point of lib/epollhook.py) and at the entry of p.Handler (wrapped func
@@ -772,6 +772,59 @@ func (w *vocWorld) exec(toks []string) (op string, reply string) {
 			return "release full=" + l, "BYSTANDER-FAIL after the delayed hang-ups were delivered: " + strings.Join(bad, "; ")
 		}
 		return "release full=" + l, "ok " + w.obs()
+	case "rel":
+		// Release() on a LIVE connection between two poller steps: with nothing buffered it takes the slot's token
+		// (operator.do()), resets the tail node and gives the token back; the slot must look as before
+		vc := w.conns[atoi(toks[1])]
+		if vc.closed || vc.hupped || vc.handler {
+			return op, "skip"
+		}
+		vc.c.Release()
+		return fmt.Sprintf("rel %d", vc.id), "ok " + w.obs()
+	case "drel":
+		// dispatch of the next event (input arriving) with the owner's Release() loop running CONCURRENTLY on another
+		// goroutine: Release's do()/done() section races the poller's do() / inputs / inputAck / done() on the same token.
+		// The loop is stopped and joined before the slot is observed, so on return nobody is inside a call.
+		if !w.inBatch || w.bpos >= len(w.batch) {
+			return op, "skip"
+		}
+		ev := w.batch[w.bpos : w.bpos+1]
+		o := *(**FDOperator)(unsafe.Pointer(&ev[0].data))
+		var vc *vocConn
+		for _, c := range w.conns {
+			if !c.closed && !c.hupped && !c.peerClosed && !c.handler && c.op == o {
+				vc = c
+			}
+		}
+		if vc == nil || atomic.LoadInt32(&o.state) != 1 {
+			return op, "skip"
+		}
+		w.bpos++
+		w.ran = w.ran[:0]
+		var spin, started int32 = 1, 0
+		joined := make(chan struct{})
+		go func() {
+			defer close(joined)
+			for atomic.LoadInt32(&spin) == 1 {
+				vc.c.Release()
+				atomic.StoreInt32(&started, 1)
+			}
+		}()
+		for atomic.LoadInt32(&started) == 0 {
+			runtime.Gosched()
+		}
+		w.p.handler(ev)
+		atomic.StoreInt32(&spin, 0)
+		<-joined
+		ran := "none"
+		if len(w.ran) > 0 {
+			ran = fmt.Sprint(w.ran[0])
+		}
+		skip := 0
+		if ran == "none" {
+			skip = 1
+		}
+		return fmt.Sprintf("drel %d skip=%d", o.index, skip), fmt.Sprintf("ok ran=%s %s", ran, w.obs())
 	case "endbatch":
 		if !w.inBatch || w.bpos < len(w.batch) {
 			return op, "skip"
@@ -831,6 +884,11 @@ func (w *vocWorld) exec(toks []string) (op string, reply string) {
 			vc.settle()
 			if have := vc.c.inputBuffer.Len() + int(atomic.LoadInt64(&vc.got)); have != vc.sent {
 				bad = append(bad, fmt.Sprintf("conn%d got %d of %d", vc.id, have, vc.sent))
+			}
+			// quiescence (no dispatch and no API call in progress): a live connection's slot must not be left with its
+			// token taken - the poller skips every event of a slot whose do() fails, the connection would be stalled for ever
+			if st := atomic.LoadInt32(&vc.op.state); !vc.hupped && st == 2 {
+				bad = append(bad, fmt.Sprintf("conn%d: slot %d left with its token taken (state 2) at quiescence, nobody holds it", vc.id, vc.idx))
 			}
 		}
 		bad = append(bad, w.disturbed()...)
@@ -1073,7 +1131,9 @@ func VerifOpCacheMain(args []string) int {
 				t = t[:1]
 			case "dispatch":
 				t = t[:1]
-			case "close", "send", "hup", "gate":
+			case "drel":
+				t = t[:1]
+			case "close", "send", "hup", "gate", "rel":
 				t = t[:2]
 			case "stale":
 				t = t[:3]
@@ -1275,6 +1335,8 @@ func VerifOpCacheMain(args []string) int {
 					line = "dclose"
 				case 1:
 					line = "dispatchall"
+				case 2, 3:
+					line = "drel"
 				}
 			case k < 16:
 				line = "endbatch"
@@ -1282,6 +1344,8 @@ func VerifOpCacheMain(args []string) int {
 				line = fmt.Sprintf("close %d", pick())
 			case k == 18 && r.Intn(2) == 0:
 				line = fmt.Sprintf("hup %d", pick())
+			case k == 18:
+				line = fmt.Sprintf("rel %d", pick())
 			default:
 				line = fmt.Sprintf("stale %d %s", pick(), []string{"release", "release", "close", "next", "write", "flush"}[r.Intn(6)])
 			}
